@@ -340,3 +340,84 @@ def is_utf8(b):
         return True
     except UnicodeDecodeError:
         return False
+
+
+# ----------------------------------------------------------------------------- targeted scenarios
+def gen_scenario(rng):
+    """Shapes that need several ingredients at once (multi-step, two cooperating sites)."""
+    k = rng.randrange(10)
+    sc = rng.choice(NONSPECIAL[:4] + [b"non-spec"])
+    q = rng.choice([b"", b"?q=1", b"?", b"?a b"])
+    f = rng.choice([b"", b"#frag", b"#", b"#f g"])
+    if k <= 2:
+        # '/.' guard: host-less, path begins with '//', with query and/or fragment
+        if rng.random() < 0.5:
+            inp = sc + b":/.//" + rng.choice([b"p", b"", b"a/b", b"/x"]) + q + f
+            ops = []
+        else:
+            inp = sc + b":/" + rng.choice([b"p", b"", b"a/b"]) + q + f
+            ops = [("set_pathname", b"//" + rng.choice([b"b", b"", b"c/d", b"/e"]))]
+        pool = [("set_host", rng.choice([b"h", b"", b"example.com", b"h:81", b"[::1]"])),
+                ("set_hostname", rng.choice([b"h", b"", b"x.y"])),
+                ("set_pathname", rng.choice([b"/y", b"//z", b"", b"w", b"/.//v"])),
+                ("set_search", rng.choice([b"", b"n=1", b"a b", b"?x"])),
+                ("set_hash", rng.choice([b"", b"h2", b"a b"])),
+                ("set_port", rng.choice([b"", b"81"])),
+                ("set_username", b"u"), ("set_protocol", rng.choice(NONSPECIAL))]
+        for _ in range(rng.randrange(1, 5)):
+            ops.append(rng.choice(pool))
+        return inp, None, ops
+    if k == 3:
+        # long IPv6 literals (bracket content 39..45 bytes) with an embedded dotted quad
+        ps = [format(rng.randrange(0x1000, 0x10000), "x") for _ in range(6)]
+        v4 = ".".join(str(rng.choice([rng.randrange(100, 256), rng.randrange(10, 100), rng.randrange(256)])) for _ in range(4))
+        h = ("[" + ":".join(ps) + ":" + v4 + "]").encode()
+        scheme = rng.choice(SPECIAL + [b"sc"])
+        inp = scheme + b"://" + h + gen_port(rng) + gen_path(rng)
+        ops = []
+        if rng.random() < 0.5:
+            inp2 = scheme + b"://x/"
+            ops = [(rng.choice(["set_host", "set_hostname"]), h)]
+            return inp2, None, ops
+        return inp, None, ops
+    if k == 4:
+        # search/hash editing with both present, values needing encoding after a clean prefix
+        inp = rng.choice([b"https://example.com/path?old=1#frag", b"sc://h/p?x#y", b"a:b?c#d", b"file:///p?q#f"])
+        pool = [("set_search", rng.choice([b"abc def", b"k=\xc3\xa9", b"?q=a b", b"'x'", b"", b"plain", b"a\"b<c>"])),
+                ("set_hash", rng.choice([b"new", b"a b", b"", b"`x`", b"#z"])),
+                ("set_pathname", rng.choice([b"/n", b"/a b", b""])),
+                ("clear_search", b""), ("clear_hash", b"")]
+        return inp, None, [rng.choice(pool) for _ in range(rng.randrange(1, 5))]
+    if k == 5:
+        # credentials shapes: password only, empty username, then edits
+        inp = rng.choice([b"http://:pw@h/", b"http://u:@h/", b"http://u:p@h:81/x", b"sc://:p@h", b"ftp://u@h/"])
+        pool = [("set_username", rng.choice([b"", b"u2", b"a:b", b"@"])), ("set_password", rng.choice([b"", b"ppp", b"p@p"])),
+                ("set_host", rng.choice([b"h2", b"h3:82", b""])), ("set_port", rng.choice([b"", b"8080", b"80"])),
+                ("set_protocol", rng.choice([b"https", b"ws", b"file", b"FILE", b"File:", b"fiLe", b"HTTPS", b"Http", b"wSS", b"ftp"]))]
+        return inp, None, [rng.choice(pool) for _ in range(rng.randrange(1, 5))]
+    if k == 6:
+        # scheme changes with stored ports that are another scheme's default, case variants
+        inp = rng.choice([b"http://h:443/", b"https://h:80/a?b#c", b"ws://u:p@h:443/", b"ftp://h:80/", b"wss://h:21/", b"http://h:21/"])
+        pool = [("set_protocol", rng.choice([b"https", b"HTTPS", b"Http", b"wSS", b"ws", b"WS:", b"ftp", b"FTP", b"file", b"FILE"])),
+                ("set_port", rng.choice([b"443", b"80", b"21", b""]))]
+        return inp, None, [rng.choice(pool) for _ in range(rng.randrange(1, 4))]
+    if k == 7:
+        # host setter values whose host part is empty, on URLs with credentials / port
+        inp = rng.choice([b"foo://user:pw@h:8080/p", b"foo://user@h/p", b"foo://h:90/p?q#f", b"foo://h/p", b"http://u@h:81/"])
+        pool = [(rng.choice(["set_host", "set_hostname"]),
+                 rng.choice([b"/x", b"?x", b"/", b"\t/y", b"", b"#z", b"\\w", b":81", b"h2/x", b"h2?y"]))]
+        return inp, None, [rng.choice(pool) for _ in range(rng.randrange(1, 3))]
+    if k == 8:
+        # hosts whose last label is number-like (ends-in-a-number), upper/lower hex, after lower-casing
+        last = rng.choice(["0X1", "0xAB", "0X", "0x", "0XaB", "0xF", "09", "1", "0x1g", "0X1G", "1e3", "0x.", "0X."])
+        host = rng.choice(["a.", "foo.bar.", "example.", "1.2.3.4.", ""]) + last
+        tail = rng.choice(["", "/", "/path?q=1#frag", ":80/p", "\t/"])
+        scheme = rng.choice(["http", "https", "ws", "ftp", "sc"])
+        return (scheme + "://" + host + tail).encode(), None, []
+    # k == 9: non-special URL, bracketed IPv6, distance from '[' / ']' to the end around 16 bytes
+    v6 = rng.choice([b"[::1]", b"[2001:db8::1]", b"[2001:db8:85a3::8a2e:370:7334]", b"[fe80::1ff:fe23:4567:890a]", b"[1:2:3:4:5:6:7:8]"])
+    tail = rng.choice([b"", b":8080", b":8080/path", b"/repo.git", b":6379", b":8080/path2", b"/" + b"x" * rng.randrange(0, 20)])
+    scheme = rng.choice([b"foo", b"git+ssh", b"redis", b"http", b"sc"])
+    if rng.random() < 0.2:
+        return b"//" + v6 + tail, scheme + b"://h/", []
+    return scheme + b"://" + v6 + tail, None, []
